@@ -439,7 +439,9 @@ class JokerSamples:
         arrs = []
         for name in names:
             unit = units.get(name, self.tbl[name].unit)
-            arrs.append(self.tbl[name].to_value(unit))
+            # convert in double precision: a float32 column would otherwise be
+            # scaled in single precision, unlike the cache-file code path
+            arrs.append(self.tbl[name].astype(np.float64).to_value(unit))
             out_units[name] = unit
 
         return np.stack(arrs, axis=1), out_units
